@@ -44,6 +44,7 @@ THEOREMS = [
     'C02_X_Y_Z_plane_cylinder_locus_sense',
     'C02_X_Y_Z_cone_locus_sense',
     'C02_P_three_points_locus_sense',
+    'C02_P_three_points_locus_partial',
     'C02_orient_plane_ok',
     'C02_sq_positive_g_flipped',
     'C02_sq_positive_g_refuted',
@@ -312,10 +313,10 @@ def gen_card(rng, tag):
         prm = ([dy(rng, -4, 4) for _ in range(3)] + [dpos(rng, 3)]
                + gen_unit_axis(rng))
         mode = rng.random()
-        if mode < 0.4:
-            prm.append(rng.choice([1.0, -1.0, 0.0]))
-        elif mode < 0.45:
-            prm += [1.0, rng.choice([0.0, 0.0])]
+        if mode < 0.55:
+            prm.append(rng.choice([1.0, -1.0, 1.0, -1.0, 0.0]))
+        elif mode < 0.62:                # ninth entry = the log flag of _cone
+            prm += [rng.choice([1.0, -1.0]), rng.choice([0.0, 1.0])]
         return 'k', prm
     raise ValueError(tag)
 
@@ -392,6 +393,21 @@ def gen_malformed(rng):
 
 # ---- implementation side --------------------------------------------------
 
+COV = None      # line-coverage tracer, active only around the tied calls
+
+
+class traced:
+    '''Context manager: trace the anchored functions if a tracer is set.'''
+    def __enter__(self):
+        if COV is not None:
+            COV.__enter__()
+
+    def __exit__(self, *exc):
+        if COV is not None:
+            COV.__exit__(*exc)
+        return False
+
+
 def exc_class(exc):
     return EXC.get(type(exc).__name__, 'OTHER:' + type(exc).__name__)
 
@@ -406,9 +422,9 @@ def impl_card(mn, prm):
     from t4_geom_convert.Kernel.Surface.ESurfaceTypeMCNP import string_to_enum
     try:
         enum = string_to_enum(mn)
-        with contextlib.redirect_stdout(io.StringIO()):   # _cone(log=...)
+        with contextlib.redirect_stdout(io.StringIO()), traced():
             surf = to_surface_mcnp(1, '', '', enum, [float(v) for v in prm],
-                                   {})
+                                   {})   # stdout: _cone(log=...)
     except Exception as exc:            # pylint: disable=broad-except
         err = ('err', exc_class(exc))
         return err, err
@@ -421,7 +437,8 @@ def impl_card(mn, prm):
     mcnp = ('ok', surf.type_surface.name, fr,
             [None if v is None else float(v) for v in surf.compl_param])
     try:
-        coll = convert_mcnp_surface(1, [(surf, 1)])
+        with traced():
+            coll = convert_mcnp_surface(1, [(surf, 1)])
     except Exception as exc:            # pylint: disable=broad-except
         return mcnp, ('err', exc_class(exc))
     out = []
@@ -727,7 +744,8 @@ def impl_number(dic):
     for key, value in dic:
         cdict[key] = list(value)
     try:
-        numbering, matching = cdict.number_items()
+        with traced():
+            numbering, matching = cdict.number_items()
     except Exception as exc:            # pylint: disable=broad-except
         return ('err', exc_class(exc))
     return ('ok', list(numbering.items()), list(matching.items()))
@@ -743,7 +761,9 @@ def impl_join(colls):
         def __init__(self, surfs):
             self.surfs = tuple(surfs)
     try:
-        joined = SurfaceCollection.join([(Raw(c), side) for c, side in colls])
+        with traced():
+            joined = SurfaceCollection.join([(Raw(c), side)
+                                             for c, side in colls])
     except SurfaceConversionError:
         return ('err', 'EConv')
     return ('ok', list(joined.surfs))
@@ -769,6 +789,31 @@ def report_sweep_failure(res, mn, prm, status, detail, origin):
 
 
 def run(res, tier, seed, proofs_ok):
+    '''Ties and sweep under a line-coverage tracer restricted to the anchored
+    functions: every line reachable by a card without TR must be executed.'''
+    import c02_cov
+    global COV
+    cov = COV = c02_cov.LineCov(c02_cov.anchored_functions())
+    try:
+        _run(res, tier, seed, proofs_ok)
+    finally:
+        COV = None
+    total, missing = cov.missing(c02_cov.UNREACHABLE)
+    res.obligation(f'coverage: the generated cards execute every reachable '
+                   f'line of the anchored functions ({total} lines of '
+                   f'{len(cov.codes)} code objects)', not missing,
+                   f'never executed: {missing[:6]}')
+    res.extra['anchored_lines'] = total
+    if missing:
+        res.violation('harness-error',
+                      'generated inputs no longer reach these lines of the '
+                      f'anchored code (strengthen the generators): {missing[:8]}',
+                      {'theorem_or_correspondence': 'coverage',
+                       'input': {'lines': [list(m) for m in missing[:20]]}},
+                      found_input=False)
+
+
+def _run(res, tier, seed, proofs_ok):
     rng = random.Random(seed)
     quick = tier == 'quick'
     per_tag = 64 if quick else 600
@@ -917,8 +962,9 @@ def run(res, tier, seed, proofs_ok):
         else:
             prm = gen_three_points(rng)
         try:
-            out = ('ok', [float(v) for v in planeParamsFromPoints(
-                prm[0:3], prm[3:6], prm[6:9])])
+            with traced():
+                out = ('ok', [float(v) for v in planeParamsFromPoints(
+                    prm[0:3], prm[3:6], prm[6:9])])
         except ValueError:
             out = ('err', 'EValue')
         res.seen(('p3', prm))
